@@ -79,6 +79,11 @@ EDITS = {
         vary=not a["baseline"].vary)),
     "PI.cp": ("PI", lambda a: a["contact_point"].set(
         value=3e-7 if a["contact_point"].value != 3e-7 else 1e-7)),
+    # small edits in SI units (0.2 nN, 5 nm): still changes
+    "PI.b+=2e-10": ("PI", lambda a: a["baseline"].set(
+        value=a["baseline"].value + 2e-10)),
+    "PI.R+=5e-9": ("PI", lambda a: a["R"].set(
+        value=a["R"].value + 5e-9)),               # a fixed parameter
     "RX[0]": ("RX", lambda a: a.__setitem__(
         0, -9e-7 if a[0] != -9e-7 else -5e-7)),
     "MK.max_nfev": ("MK", lambda a: a.__setitem__(
@@ -188,6 +193,16 @@ class Twin(hist.Driver):
                 w.dirty.discard(n)
                 if tc1 != tc0:
                     stats["effective_edit:" + n] = 1
+                if n == "PI" and api == "fit_model" and et is None \
+                        and nt == 0:
+                    # every edit of the alphabet changes the value of an
+                    # initial parameter: the next fit that is handed the
+                    # parameters must notice and optimise again
+                    w.viol.append(("edit-not-noticed", api, n,
+                                   "initial parameters were edited and "
+                                   "passed again (to the by-value twin as "
+                                   "a fresh copy), but no new optimisation "
+                                   "was performed"))
         return {"ok": ea is None, "exc": ea, "min": [na, nt],
                 "_stats": stats}
 
@@ -252,7 +267,8 @@ FOCUS = {
     "twin_fit": Twin(
         calls=["pre", "fit_pi", "fit_rx", "fit_mk", "fit_k", "fit_rel",
                "fit_plat", "get_pi"],
-        edits=["PI.E*=2", "PI.cp", "RX[0]", "MK.max_nfev", "PI.R"],
+        edits=["PI.E*=2", "PI.cp", "RX[0]", "MK.max_nfev", "PI.R",
+               "PI.b+=2e-10", "PI.R+=5e-9"],
         name="twin_fit"),
     "twin_pre": Twin(
         calls=["pre", "pre_details", "fit_pre", "fit", "rate"],
